@@ -51,6 +51,22 @@ type filler struct {
 	tmp      string // directory for directory-mode paths
 	dirPct   int    // probability (percent) of a directory-mode router / cluster path
 	noTLS    bool
+	hostile  bool // free-form strings (string-map values and keys, Value fields, strings inside blobs) from hostileStrings
+}
+
+// hostileStrings: what a free-form string of the configuration is drawn from now and then.  Strings that another
+// reading would re-type or re-spell (non-canonical numerals, the JSON literals), the empty string, blanks, quotes, escapes,
+// what encoding/json escapes on its own (<, >, &, U+2028), multi-byte runes, a long one.  All valid UTF-8.
+var hostileStrings = []string{"1.10", "007", "1e3", "+1", "1.", ".5", "0x10", "1_0", "-0", "1.0", "1", "2", "1.1", "1000",
+	"true", "false", "null", "TRUE", "NaN", "Inf", "", " ", " lead", "trail ", "two  blanks", "\"quoted\"", "back\\slash", "tab\there",
+	"new\nline", "nul\x00byte", "<a&b>", "line\u2028sep", "h\u00e9llo", "\u4e2d\u6587", "\U0001F600", "{\"k\":1}", "[1]", "0s", "1.10.0",
+	strings.Repeat("long-", 120)}
+
+func (f *filler) freeString() string {
+	if f.hostile && f.r.Pct(55) {
+		return hostileStrings[f.r.Intn(len(hostileStrings))]
+	}
+	return f.uniq("s")
 }
 
 func (f *filler) uniq(prefix string) string {
@@ -96,6 +112,9 @@ func (f *filler) anyJSON(depth int) interface{} {
 	case 0:
 		return nil
 	case 1:
+		if f.hostile && f.r.Pct(40) {
+			return hostileStrings[f.r.Intn(len(hostileStrings))]
+		}
 		return f.uniq("a")
 	case 2:
 		return float64(f.r.Intn(1000))
@@ -157,7 +176,9 @@ func (f *filler) fill(v reflect.Value, depth int, path string) {
 	case reflect.Float32, reflect.Float64:
 		v.SetFloat([]float64{0, 1, 0.5, 2.25}[f.r.Intn(4)])
 	case reflect.String:
-		if f.r.Pct(20) {
+		if f.hostile && (strings.HasSuffix(path, ".Value") || strings.HasSuffix(path, "]") && strings.Contains(path, "{map}")) {
+			v.SetString(f.freeString())
+		} else if f.r.Pct(20) {
 			v.SetString("")
 		} else {
 			v.SetString(f.uniq("s"))
@@ -196,10 +217,20 @@ func (f *filler) fill(v reflect.Value, depth int, path string) {
 			n = 0
 		}
 		m := reflect.MakeMap(t)
+		if f.hostile && t.Elem().Kind() == reflect.String && depth < f.maxDepth {
+			n = f.r.Intn(4)
+		}
 		for i := 0; i < n; i++ {
 			k := f.uniq("k")
+			if f.hostile && t.Elem().Kind() == reflect.String && f.r.Pct(20) {
+				k = hostileStrings[f.r.Intn(len(hostileStrings))]
+			}
 			e := reflect.New(t.Elem()).Elem()
-			f.fill(e, depth+1, fmt.Sprintf("%s[%s]", path, k))
+			sub := fmt.Sprintf("%s[%s]", path, k)
+			if t.Elem().Kind() == reflect.String {
+				sub = fmt.Sprintf("%s{map}[%d]", path, i)
+			}
+			f.fill(e, depth+1, sub)
 			m.SetMapIndex(reflect.ValueOf(k).Convert(t.Key()), e)
 		}
 		// a member named private_key directly in a string-keyed map (filter config {"private_key": ...}, metadata)
